@@ -32,8 +32,21 @@ AXES_SRC = 'atomman/tools/axes_check.py'
 
 THEOREMS = [
     'C11.cijkl_table_is_voigt', 'C11.cij9_table_is_voigt', 'C11.minor_symm', 'C11.major_symm',
-    'C11.cijkl_roundtrip', "C11.cijkl_roundtrip'",
-    'C11.transform_id', 'C11.transform_comp', 'C11.transform_inv',
+    'C11.cijkl_roundtrip', "C11.cijkl_roundtrip'", 'C11.cij9_roundtrip', 'C11.sijkl_weights',
+    'C11.sijkl_roundtrip', "C11.sijkl_roundtrip'", 'C11.stiffness_compliance_identity',
+    'C11.transform_is_tensor_rotation', 'C11.transform_id', 'C11.transform_comp', 'C11.transform_inv',
+    'C11.transform_symm', 'C11.energy_invariant', 'C11.voigt_moduli_invariant',
+    'C11.system_invariant_isotropic', 'C11.system_invariant_cubic', 'C11.system_invariant_hexagonal',
+    'C11.system_invariant_tetragonal', 'C11.system_invariant_rhombohedral', 'C11.three_fold_proper',
+    'C11.system_invariant_orthorhombic', 'C11.system_invariant_monoclinic', 'C11.generators_proper',
+    'C11.hexagonal_inputs_agree', 'C11.rhombohedral_inputs_agree', 'C11.iso_range', 'C11.iso_pair_C11_C12',
+    'C11.iso_pair_C11_C44', 'C11.iso_pair_C11_K', 'C11.iso_pair_C12_C44', 'C11.iso_pair_C12_K',
+    'C11.iso_pair_C44_K', 'C11.iso_pair_C11_nu', 'C11.iso_pair_C44_nu', 'C11.iso_pair_E_nu',
+    'C11.iso_pair_nu_K', 'C11.iso_pair_C44_E', 'C11.iso_pair_E_K', 'C11.iso_pair_C12_nu', 'C11.iso_pair_C11_E',
+    'C11.iso_pair_C12_E', 'C11.iso_alias', 'C11.normalized_idem_triclinic', 'C11.normalized_idem_cubic',
+    'C11.normalized_idem_hexagonal', 'C11.normalized_idem_tetragonal', 'C11.normalized_idem_rhombohedral',
+    'C11.normalized_idem_orthorhombic', 'C11.normalized_idem_isotropic', 'C11.isclose_self',
+    'C11.is_normal_of_normalized',
 ]
 PARTIAL = {}
 
